@@ -1,3 +1,4 @@
 pub mod swiftness_stark {
 //@include stark/config.rs
+//@include stark/queries.rs
 } // mod swiftness_stark
